@@ -20,6 +20,7 @@ META = {
         "Not decided: 'every view after every history' beyond these exception classes; that foreign traffic never alters tracked state."
     ),
 }
+META["explanation"] += ' C13.R2 also excludes AssertionError from asserts on payload-derived data and IndexError from constant indexes into sequences of unproven length. C13.R4 also: the array-fragment merge requires source and code equality and a time window as conjuncts.'
 
 VIEW_NAMES = ("schema", "params", "status", "traits", "known_list", "_schema_min", "faultlog", "latest_event", "latest_fault", "active_faults")
 
